@@ -37,12 +37,14 @@ def _block(rng, tag):
     rng.shuffle(rules)
     rules = rules[: rng.randint(1, len(rules))]
     body = []
-    style = rng.choice(["none", "top", "bottom", "middle", "alone", "miscased", "top", "bottom"])
+    style = rng.choice(["none", "top", "bottom", "middle", "alone", "miscased", "top", "bottom", "empty"])
     if tag in ("liga", "ss01"):
         style = "none"
     marker = "# Automatic Code"
     if style == "miscased":
         marker = "# automatic code"
+    if style == "empty" and tag not in ("liga", "ss01"):
+        return "feature %s {\n} %s;" % (tag, tag)       # an empty block: the idiom for switching the generated feature off
     if style == "alone":
         body = ["# a comment", marker]
     elif style in ("top", "miscased"):
